@@ -71,6 +71,7 @@ TraceNext ==
   \/ Has("C_Loop") /\ C_Loop /\ R.abort = abort /\ R.com = C
   \/ Has("C_FinLoad") /\ C_FinLoad /\ R.fin = finIdx /\ R.com = C
   \/ Has("C_Take") /\ C_Take /\ R.tx = C
+  \/ Has("C_Nonce") /\ C_Nonce(R.tx_nonce = R.state_nonce) /\ R.tx = C
   \/ Has("C_Apply") /\ C_Apply /\ R.tx = C
   \/ Has("C_Publish") /\ C_Publish /\ R.com = C + 1
   \/ Has("D_Commit") /\ D_Commit /\ R.tx = C
@@ -93,6 +94,7 @@ TraceNext ==
   \/ Has("D_Add") /\ D_Add(T) /\ R.tx = loc[T].tx
        /\ R.dep = (IF pc[T] = "d_add" THEN Blocker(loc[T].blockers) ELSE IF loc[T].hintv >= finIdx THEN loc[T].hintv ELSE -1)
   \/ Has("E_HeadCheck") /\ E_HeadCheck(T) /\ R.com = comIdx /\ R.invalid = (loc[T].kind = "invalid")
+       /\ R.head_at_start = (loc[T].c = loc[T].tx)
   \/ Has("D_KeyTx") /\ D_KeyTx(T) /\ R.com = comIdx
   \/ Has("X_Publish") /\ X_Publish(T) /\ R.tx = loc[T].tx /\ R.conflict = loc[T].conflict
   \/ Has("T_Rewind1") /\ T_Rewind1(T) /\ R.ts = clock /\ R.idx = loc'[T].rwidx
